@@ -92,6 +92,7 @@ type Stats struct {
 	EnvActions    int
 	Faults        int
 	TimeAdvances  int
+	SpinReliefs   int
 	IdleWaits     int
 	Tasks         int
 	Escapes       int
@@ -113,14 +114,21 @@ type Sim struct {
 	nextID int
 	locks  map[unsafe.Pointer]*lockState
 
-	current  *Task
-	lastRun  *Task
-	fair     bool
-	rr       int
-	rrAct    string
-	stopping int32
-	wakeCh   chan struct{}
-	start    time.Time
+	current *Task
+	lastRun *Task
+	fair    bool
+	rr      int
+	rrAct   string
+	// spin handling in fair mode: after spinLimit consecutive task steps during which neither an
+	// environment action ran nor virtual time passed, one environment action runs and spinStep
+	// of virtual time passes although tasks are ready (a goroutine that spins without ever
+	// blocking does not stop the clock or the rest of the world on a real machine)
+	spinLimit int
+	spinStep  time.Duration
+	spinRun   int
+	stopping  int32
+	wakeCh    chan struct{}
+	start     time.Time
 
 	crash   *Crash
 	Stats   Stats
@@ -231,6 +239,11 @@ func (s *Sim) Now() time.Duration { return time.Since(s.start) }
 
 // SetFair switches between random (tape-driven) and fair deterministic scheduling.
 func (s *Sim) SetFair(f bool) { s.fair = f }
+
+// SetSpinRelief enables the fair-mode spin handling (0 disables).
+func (s *Sim) SetSpinRelief(limit int, step time.Duration) {
+	s.spinLimit, s.spinStep, s.spinRun = limit, step, 0
+}
 
 // SetPKeep changes the keep probability.
 func (s *Sim) SetPKeep(p int) { s.opts.PKeep = p }
@@ -613,6 +626,20 @@ func (s *Sim) decide(ready []*Task, acts []Action) {
 
 func (s *Sim) decideFair(ready []*Task, acts []Action) {
 	s.Stats.Decisions++
+	relief := false
+	if len(ready) > 0 && s.spinLimit > 0 {
+		s.spinRun++
+		if s.spinRun > s.spinLimit {
+			s.spinRun = 0
+			s.Stats.SpinReliefs++
+			s.trace.adds("W", "spin-relief "+s.spinStep.String())
+			s.current = nil
+			time.Sleep(s.spinStep)
+			ready, relief = nil, true // this decision goes to the environment
+		}
+	} else {
+		s.spinRun = 0
+	}
 	if len(ready) > 0 {
 		// continue the current task if it is ready, else round-robin by id
 		for _, t := range ready {
@@ -680,6 +707,9 @@ func (s *Sim) decideFair(ready []*Task, acts []Action) {
 		s.trace.adds("A", pick.Name)
 		s.current = nil
 		pick.Do()
+		return
+	}
+	if relief {
 		return
 	}
 	// only faults enabled: treat as idle
